@@ -1093,6 +1093,14 @@ theorem Good.delManifest {env : Env} {st : Store} (hb : BlobsOk env st) (hc : Gu
 
 /-! ## the operations -/
 
+/-- changes of the directory tree under manifests/ touch neither blobs nor manifests -/
+theorem tree_step (env : Env) (st : Store) (e : List (List String)) :
+    BlobStep env st { st with edirs := e } :=
+  ⟨rfl, fun _ h => Or.inl h, fun _ => Or.inl rfl⟩
+
+theorem pruneDirs_step (env : Env) (st : Store) : BlobStep env st (pruneDirs st) := tree_step env st _
+theorem mkdirs_step (env : Env) (st : Store) (p : List String) : BlobStep env st (mkdirs st p) := tree_step env st _
+
 theorem deleteAt_good {env : Env} {st : Store} (hb : BlobsOk env st) (hc : Guard env st) (t : Name) :
     Good env st (deleteAt env st t).1 [t] := by
   unfold deleteAt
@@ -1105,7 +1113,8 @@ theorem deleteAt_good {env : Env} {st : Store} (hb : BlobsOk env st) (hc : Guard
       simp only
       have g1 := Good.delManifest hb hc t
       have hcm : ∀ l ∈ m.all, GD env l.digest := fun l hl => hc.gd hm hl
-      exact g1.trans (Good.ofBlobStep (removeLayers_step env m.all g1.canon hcm) g1.blobsOk g1.canon _)
+      have g2 := g1.trans (Good.ofBlobStep (pruneDirs_step env (delManifest st t)) g1.blobsOk g1.canon _)
+      exact g2.trans (Good.ofBlobStep (removeLayers_step env m.all g2.canon hcm) g2.blobsOk g2.canon _)
 
 theorem copyAt_good {env : Env} {st : Store} (hb : BlobsOk env st) (hc : Guard env st) (hi : NameInv env st)
     (s d : Name) : Good env st (copyAt st s d).1 [d] := by
@@ -1113,7 +1122,7 @@ theorem copyAt_good {env : Env} {st : Store} (hb : BlobsOk env st) (hc : Guard e
   split
   · exact Good.refl hb hc _
   · cases hm : st.man s with
-    | none => exact Good.refl hb hc _
+    | none => exact Good.ofBlobStep (mkdirs_step env st d.path) hb hc _
     | some f =>
       simp only
       exact Good.setManifest hb hc d f (fun m e => ⟨fun l hl => hc.gd (e ▸ hm) hl, hi s m (e ▸ hm)⟩)
@@ -1248,7 +1257,7 @@ theorem pruneStartup_good {env : Env} (hinj : HashInj env) {st : Store} (hb : Bl
   unfold pruneStartup
   split
   · exact Good.ofBlobStep s1 hb hc _
-  · exact Good.ofBlobStep (s1.trans (pruneLayers_step env (s1.guard hc))) hb hc _
+  · exact Good.ofBlobStep ((s1.trans (pruneLayers_step env (s1.guard hc))).trans (pruneDirs_step env _)) hb hc _
 
 /-- a `from` create meets the guard `Apart` by itself: every base layer is in use by the source manifest -/
 theorem apart_of_inUse {env : Env} {st : Store} {ls : List Layer} (r : CreateReq)
@@ -1647,7 +1656,9 @@ theorem step_man_frame (env : Env) (st : Store) (op : Op) (ch : Choice) (n : Nam
     split
     · rfl
     · rfl
-    · rw [man_congr (removeLayers_mans _ _ _), delManifest_man]; simp [hn]
+    · rw [man_congr (removeLayers_mans _ _ _)]
+      show (delManifest st _).man n = st.man n
+      rw [delManifest_man]; simp [hn]
   | prune =>
     simp only [step, pruneStartup]
     split <;> rfl
@@ -1671,6 +1682,7 @@ theorem step_man_frame (env : Env) (st : Store) (op : Op) (ch : Choice) (n : Nam
     · rfl
   | litter j c => rfl
   | litterBlob k c => rfl
+  | litterMan p => rfl
   | pull t reg served =>
     simp only [step]
     simp only [targets, List.mem_singleton] at hn
